@@ -186,6 +186,55 @@ theorem resolveF_erase (T : Tables) (L : LabTables) (v : FVariant) (b : BasisSpe
           simp only [eraseE]
           split <;> simp [elimAllF_erase]
 
+/-! ## alias names -/
+
+def isOther : GName → Bool
+  | .other _ => true
+  | _ => false
+
+theorem canonName_idem (al : List (String × GName)) (h : al.all (fun p => !isOther p.2) = true) (n : GName) :
+    canonName al (canonName al n) = canonName al n := by
+  cases n with
+  | other s =>
+    simp only [canonName]
+    cases hl : al.lookup s with
+    | none => simp only [canonName, hl]
+    | some m =>
+      simp only
+      have hm : (s, m) ∈ al := by
+        clear h
+        induction al with
+        | nil => simp at hl
+        | cons p ps ih =>
+          obtain ⟨k, w⟩ := p
+          simp only [List.lookup_cons] at hl
+          by_cases hk : s = k
+          · subst hk; simp at hl; subst hl; exact List.mem_cons_self
+          · have : (s == k) = false := by simpa using hk
+            rw [this] at hl
+            exact List.mem_cons_of_mem _ (ih hl)
+      have := List.all_eq_true.mp h (s, m) hm
+      cases m <;> first | rfl | (simp [isOther] at this)
+  | _ => rfl
+
+theorem canonItem_idem (al : List (String × GName)) (h : al.all (fun p => !isOther p.2) = true) (it : CircItem) :
+    (it.canon al).canon al = it.canon al := by
+  cases it with
+  | meas => rfl
+  | gate g l c => simp only [CircItem.canon, canonName_idem al h]
+
+/-- reading alias names is idempotent: a circuit and the same circuit with every alias spelled canonically
+resolve to the same result -/
+theorem resolveCA_canon (T : Tables) (L : LabTables) (al : List (String × GName))
+    (h : al.all (fun p => !isOther p.2) = true) (v : FVariant) (b : BasisSpec) (items : List CircItem) :
+    resolveCA T L al v b (items.map (CircItem.canon al)) = resolveCA T L al v b items := by
+  unfold resolveCA
+  rw [List.map_map]
+  congr 1
+  apply List.map_congr_left
+  intro it _
+  exact canonItem_idem al h it
+
 /-! ## spelling of the basis -/
 
 theorem normBasis_valid (y : GName) (hy : basis2qValid.contains y = true) :
